@@ -51,7 +51,7 @@ ASSUMPTIONS = [
     'non-empty lists or None; explicit numeric ids are >= 1000 (the Redis counter would otherwise run into them)',
     'Mongo profile: BSON has no date-only type and 64-bit integers, arrays change the meaning of equality filters, '
     'modified_count ignores no-op updates: sequences run on Mongo use datetimes (ms precision), ints < 2^63, equality '
-    'filters only on scalar fields, every update sets a fresh value, and no limit=0 (MongoDB: 0 = no limit)',
+    'filters only on scalar fields, no limit=0 (MongoDB: 0 = no limit), and - while MONGO_NOOP_UPDATES is off, see finding 9 - every update sets a fresh value',
     'an equality criterion whose value is an object cannot be expressed (a dict criterion is the operator syntax)',
     'no aliasing: after every call the harness mutates in place everything the driver returned and (Redis, Mongo; JSON once '
     'fixes/C06-json-copy-inputs.diff is applied - JSON_INPUT_MUTATION) everything it was handed; later answers must not change',
@@ -711,6 +711,11 @@ async def run_seq(kind, seq, workdir, tag):
                 await driver.init()
             continue
         coll = o['coll']
+        if kind == 'json-file' and k == 'query' and o['uid'] % 2 == 0:
+            # every second query of the file-backed driver is answered by a fresh instance loaded from the file:
+            # every write must have been saved by the operation that made it
+            driver = json_driver.JSONDriver(path, pretty_format=False, use_backup=True)
+            await driver.init()
         conc = {'uid': o['uid'], 'op': k, 'coll': coll}
         scan = None
         note = ''
